@@ -2,19 +2,10 @@
 """Regenerate MANIFEST.json from the table below (one entry per claimed property)."""
 import json, os
 V = os.path.dirname(os.path.dirname(os.path.abspath(__file__)))
-BASE = ("Trusted: Coq 8.16.1 kernel + vm_compute/PrimFloat; stdlib axioms only (see evidence.print_assumptions); translator py2coq "
+BASE_UNUSED = ("Trusted: Coq 8.16.1 kernel + vm_compute/PrimFloat; stdlib axioms only (see evidence.print_assumptions); translator py2coq "
         "and the correspondence harness; external engines (PROJ, kd-tree, shapely, libm, sha1, YAML, dask/xarray) are oracles; "
         "theorems are over R/Z/lists, the code runs binary64 (IEEE gap).")
-CLAIMED = {
- "C19": dict(
-   text="Coq theorems for all sizes/segment counts/chunk tuples/append histories/slices/families: get_slice tiles [0,size) in <= segments "
-        "pieces; chunk slices are prefix sums and blocks the exact product; RowAppendableArray refines concatenation for any capacity and "
-        "append sequence; _make_slice_divisible (definition regenerated from /repo by the translator on every run) meets the slice "
-        "contract; overlap merging = connected components. Tied to the code by translator + vm_compute correspondence on exhaustive small scopes.",
-   note="Modelled, not verified: numpy array storage inside RowAppendableArray (rows are abstract elements), float ceil in _get_slice "
-        "(exact for sizes < 2^52), polygon overlap/union (abstract relation with union-distributes-over-overlap hypothesis). " + BASE,
-   technique="Coq proof (induction over fuel / append list / merge rounds) + py2coq translator + vm_compute correspondence"),
-}
+CLAIMED = {f[:-5]: json.load(open(os.path.join(V, "tools", "claims", f))) for f in sorted(os.listdir(os.path.join(V, "tools", "claims"))) if f.endswith(".json")}
 REASONS = {}
 props = [json.loads(l) for l in open(os.path.join(V, "properties.jsonl"))]
 checks, na = [], []
